@@ -13,12 +13,16 @@
 EXTENDS Integers, Sequences, FiniteSets, TLC, Json
 \* ("sm2opaque": an SM2 key behind an opaque crypto.Signer - a hardware module, a key service - of which the package sees
 \* only Public() and Sign())
-Families == {"sm2", "sm2opaque", "rsa", "ecdsa256", "ecdsa384"}
+\* ("ecdsa521": signatures of about 139 bytes - the only ones whose DER SEQUENCE needs the long length form; "ecdsa224")
+Families == {"sm2", "sm2opaque", "rsa", "ecdsa256", "ecdsa384", "ecdsa521", "ecdsa224"}
 Algs(f) == CASE f \in {"sm2", "sm2opaque"} -> {"SM2WithSM3", "SM2WithSHA1", "SM2WithSHA256"}
              [] f = "rsa" -> {"SHA256WithRSA", "SHA1WithRSA", "SHA384WithRSA", "SHA512WithRSA", "SHA256WithRSAPSS", "SHA384WithRSAPSS", "SHA512WithRSAPSS"}
              [] f = "ecdsa256" -> {"ECDSAWithSHA256", "ECDSAWithSHA1", "ECDSAWithSHA384"}
              [] f = "ecdsa384" -> {"ECDSAWithSHA384", "ECDSAWithSHA256", "ECDSAWithSHA512"}
+             [] f = "ecdsa521" -> {"ECDSAWithSHA512", "ECDSAWithSHA256", "ECDSAWithSHA384"}
+             [] f = "ecdsa224" -> {"ECDSAWithSHA256", "ECDSAWithSHA1"}
 Default(f) == CASE f \in {"sm2", "sm2opaque"} -> "SM2WithSM3" [] f = "rsa" -> "SHA256WithRSA" [] f = "ecdsa256" -> "ECDSAWithSHA256" [] f = "ecdsa384" -> "ECDSAWithSHA384"
+              [] f = "ecdsa521" -> "ECDSAWithSHA512" [] f = "ecdsa224" -> "ECDSAWithSHA256"
 Kinds == {"cert", "csr", "crl", "revlist"}
 \* template classes for certificates (field groups that must survive the round trip)
 Classes == {"plain", "serial20", "names", "usages", "ekus", "ca_pathlen0", "ca_pathlen2", "sans", "constraints", "policies", "extraext", "validity_edges",
